@@ -45,10 +45,10 @@ func init() { reg.Register("C12", "model_checking", Run) }
 // ---------------------------------------------------------------- importer
 
 var fakeSrc = map[string]string{
-	"vp/p1": "package p1\nconst V = 0\nfunc f(x int32) int32 { return x }\n",
-	"vp/p2": "package p2\nconst V = 0\n",
+	"vp/p1": "package p1\nconst V = 0\ntype T struct{}\ntype C interface{ ~int32 | ~int64 }\nfunc f(x int32) int32 { return x }\n",
+	"vp/p2": "package p2\nconst V = 0\ntype T struct{}\n",
 	"vp/p3": "package p3\n",
-	"vp/p4": "package p4\nconst DotV = 0\n",
+	"vp/p4": "package p4\nconst DotV = 0\ntype DotT struct{}\n",
 	"sync":  "package sync\ntype Mutex struct{}\n",
 	"github.com/gopherjs/gopherjs/nosync": "package nosync\ntype Mutex struct{}\n",
 	"embed": "package embed\ntype FS struct{}\n",
@@ -164,7 +164,18 @@ func decide(r *recT, style int) *outcome {
 	obs := map[obsT]bool{}
 	oc.notes = append(oc.notes, extract(vf, 2, obs)...)
 	oc.notes = append(oc.notes, extract(of, 1, obs)...)
-	oc.missing, oc.extra = diff(predicted(r), obs)
+	pred := predicted(r)
+	if r.Open {
+		// unspecified: the overlay signature names an import the original file does not have
+		for _, m := range []map[obsT]bool{pred, obs} {
+			for o := range m {
+				if o.K == "import" && o.Ord/1000 == 1 {
+					delete(m, o)
+				}
+			}
+		}
+	}
+	oc.missing, oc.extra = diff(pred, obs)
 	if r.Tc {
 		oc.tcErrs = typeCheck(fset, []*ast.File{vf, of, hf})
 	}
@@ -320,9 +331,12 @@ type pairDesc struct {
 	Ob bool    `json:"ob"`
 	Vb bool    `json:"vb"`
 	Ip string  `json:"ip"`
-	O  [][]int `json:"o"`
-	V  [][]int `json:"v"`
+	O  [][]any `json:"o"`
+	V  [][]any `json:"v"`
 }
+
+// signature uses (Overlay!SigUses without ""), weighted
+var sigUses = []string{"pl", "pl", "pl", "plr", "plc", "nm", "nm", "dot", "us", "us", "sy", "syn"}
 
 // class indices into OverlayScen!ClassNames, weighted
 var classNames = []string{"func", "meth", "lnk", "type1", "type2", "var1", "var2", "var3", "const1", "const2", "iota"}
@@ -356,16 +370,35 @@ func pickLen(rng *rand.Rand) int {
 	}
 }
 
+// genPair chooses one pair descriptor.  Signature uses are drawn from a small
+// palette per pair (empty for a third of the pairs), so that an import whose
+// only use is one signature, and an override-signature naming an import the
+// original file has, are both frequent.
 func genPair(rng *rand.Rand) pairDesc {
-	d := pairDesc{Ob: rng.Intn(4) == 0, Vb: rng.Intn(4) == 0, Ip: "vp/pkg", O: [][]int{}, V: [][]int{}}
+	d := pairDesc{Ob: rng.Intn(4) == 0, Vb: rng.Intn(4) == 0, Ip: "vp/pkg", O: [][]any{}, V: [][]any{}}
 	if rng.Intn(3) == 0 {
 		d.Ip = "math/rand"
 	}
-	for n := pickLen(rng); n > 0; n-- {
-		d.O = append(d.O, []int{pickClass(rng), rng.Intn(1 << 20)})
+	var palette []string
+	if rng.Intn(3) != 0 {
+		palette = append(palette, sigUses[rng.Intn(len(sigUses))])
+		if rng.Intn(2) == 0 {
+			palette = append(palette, sigUses[rng.Intn(len(sigUses))])
+		}
+	}
+	su := func(class int) string {
+		if class > 2 || len(palette) == 0 || rng.Intn(5) < 2 {
+			return ""
+		}
+		return palette[rng.Intn(len(palette))]
 	}
 	for n := pickLen(rng); n > 0; n-- {
-		d.V = append(d.V, []int{pickClass(rng), rng.Intn(1 << 20), rng.Intn(1 << 10)})
+		cl := pickClass(rng)
+		d.O = append(d.O, []any{cl, rng.Intn(1 << 20), su(cl)})
+	}
+	for n := pickLen(rng); n > 0; n-- {
+		cl := pickClass(rng)
+		d.V = append(d.V, []any{cl, rng.Intn(1 << 20), rng.Intn(1 << 10), su(cl)})
 	}
 	return d
 }
@@ -379,7 +412,7 @@ func setOf(xs ...string) string {
 }
 
 type scenCfg struct {
-	names, fu, vu, ips, classes []string
+	names, fu, vu, su, ips, classes []string
 	bls                         string
 	mode                        string
 	maxo, maxv, nchunks         int
@@ -387,7 +420,7 @@ type scenCfg struct {
 
 func (s scenCfg) text() string {
 	return "SPECIFICATION Spec\nINVARIANT Thm\nINVARIANT Emit\nCHECK_DEADLOCK FALSE\nCONSTANTS\n" +
-		"Names = " + setOf(s.names...) + "\nFU = " + setOf(s.fu...) + "\nVU = " + setOf(s.vu...) + "\nIps = " + setOf(s.ips...) +
+		"Names = " + setOf(s.names...) + "\nFU = " + setOf(s.fu...) + "\nVU = " + setOf(s.vu...) + "\nSU = " + setOf(s.su...) + "\nIps = " + setOf(s.ips...) +
 		"\nMode = \"" + s.mode + "\"\nClasses = " + setOf(s.classes...) + "\nBls = " + s.bls +
 		fmt.Sprintf("\nMaxO = %d\nMaxV = %d\nNChunks = %d\nOutFile = \"scen\"\n", s.maxo, s.maxv, s.nchunks)
 }
@@ -475,6 +508,7 @@ func nontrivial(r *recT) bool {
 func Run(c *core.Ctx, pool *gjs.Pool) {
 	c.Assumef("the reference is the documentation: doc/pargma.md and the comments of parseAndAugment, overrideInfo and pruneImports (a method with an override of its own is not removed with its purged receiver type; a file left without declarations and without a linkname directive loses all imports, blank and dot ones included; dot and blank imports are otherwise never removed)")
 	c.Assumef("a pair is consistent (must type-check after the merge) when every method has its receiver type with matching genericity, every keep-original function has a non-generic original to refer to, and a kept dot import is still used (Overlay!TypeChecks); go/types with a fixed importer for the seven packages of the universe is the judge")
+	c.Assumef("imports needed by the overlay signature of an override-signature: the merged function stays in the original file, so the signature's imports must be imports of the original file; the documentation never says that imports are added or carried over from the overlay file, so a pair whose overlay signature names an import the original file lacks is UNSPECIFIED (Overlay!SigImportsOpen): the imports of its original file and its type check are not judged")
 	c.Assumef("guard: the rendered original alone must be accepted/rejected by go/types exactly as Overlay!OrigAlone says; otherwise the pair is discarded")
 	if rp := os.Getenv("VERIF_REPLAY"); rp != "" {
 		replay(c, rp)
@@ -500,7 +534,7 @@ func Run(c *core.Ctx, pool *gjs.Pool) {
 		return true
 	}
 	// 1. exhaustive product over a reduced universe
-	full := scenCfg{names: []string{"A", "B"}, fu: []string{""}, vu: []string{""}, ips: []string{"vp/pkg"}, bls: "{FALSE}", mode: "full",
+	full := scenCfg{names: []string{"A", "B"}, fu: []string{""}, vu: []string{""}, su: []string{"", "pl"}, ips: []string{"vp/pkg"}, bls: "{FALSE}", mode: "full",
 		classes: []string{"func", "meth", "lnk", "type1", "var1", "const1", "iota"}, maxo: 1, maxv: 1}
 	if c.Thorough() {
 		full.fu, full.vu = []string{"", "pl", "us"}, []string{"", "pl"}
@@ -513,6 +547,9 @@ func Run(c *core.Ctx, pool *gjs.Pool) {
 	c.Phase("tlc-full")
 	// 2. seeded sample of the whole universe
 	npairs := c.Pick(24000, 600000)
+	if v := os.Getenv("VERIF_C12_PAIRS"); v != "" { // development aid: smaller sample
+		fmt.Sscan(v, &npairs)
+	}
 	const perBatch, perChunk = 64, 40
 	files := map[string]string{}
 	nchunks := 0
@@ -531,18 +568,18 @@ func Run(c *core.Ctx, pool *gjs.Pool) {
 		files[fmt.Sprintf("c12_chunk_%d.json", nchunks)] = string(j)
 	}
 	all := []string{"", "pl", "nm", "dot", "us", "sy", "syn"}
-	sample := scenCfg{names: []string{"A", "B", "C", "D"}, fu: all, vu: all[:5], ips: []string{"vp/pkg"}, bls: "{FALSE}", mode: "sample",
+	sample := scenCfg{names: []string{"A", "B", "C", "D"}, fu: all, vu: all[:5], su: []string{""}, ips: []string{"vp/pkg"}, bls: "{FALSE}", mode: "sample",
 		classes: classNames, maxo: 3, maxv: 3, nchunks: nchunks}
 	if !runScen("sample", sample, files) {
 		return
 	}
 	c.Phase("tlc-sample")
-	c.Set("checker_cmd", "tlc OverlayScen (INVARIANT Thm: OverlayAllIn, NoDupKeys, EmptyIsIdentity, Unrelated, OnlyInputs on every pair; INVARIANT Emit), Mode=full then Mode=sample")
+	c.Set("checker_cmd", "tlc OverlayScen (INVARIANT Thm: OverlayAllIn, NoDupKeys, EmptyIsIdentity, Unrelated, OnlyInputs, ImportsExact (NoUnusedImport, NoMissingImport) on every pair; INVARIANT Emit), Mode=full then Mode=sample")
 	c.Set("exhaustive", false)
-	c.Set("exhaustive_part", fmt.Sprintf("Mode=full: every pair of well-formed sides with <= %d original and <= %d overlay declarations over names %v, classes %v, body uses %v", full.maxo, full.maxv, full.names, full.classes, full.fu))
+	c.Set("exhaustive_part", fmt.Sprintf("Mode=full: every pair of well-formed sides with <= %d original and <= %d overlay declarations over names %v, classes %v, body uses %v, signature uses %v", full.maxo, full.maxv, full.names, full.classes, full.fu, full.su))
 	c.Set("sample_descriptors", npairs)
 	c.Set("sample_descriptors_not_wellformed", invalid)
-	c.Set("rule", "TLC enumerates (a) the full product of well-formed sides over the reduced universe and (b) VERIF_SEED-chosen pair descriptors over the 4-name universe (<= 3 declarations per side, every declaration class, directive variant and import use); a case is one pair (original side, overlay side, import path); distinct = distinct pairs; non-trivial = the overlay shares a key or receiver type with the original or carries a directive")
+	c.Set("rule", "TLC enumerates (a) the full product of well-formed sides over the reduced universe and (b) VERIF_SEED-chosen pair descriptors over the 4-name universe (<= 3 declarations per side, every declaration class, directive variant, import use by a body / initialiser and import use by a signature: parameter, result or constraint type of an imported package); a case is one pair (original side, overlay side, import path); distinct = distinct pairs; non-trivial = the overlay shares a key or receiver type with the original or carries a directive")
 	if os.Getenv("VERIF_C12_CORRUPT") == "pred" {
 		for _, r := range recs {
 			if len(r.M) > 0 && nontrivial(r) {
@@ -557,6 +594,44 @@ func Run(c *core.Ctx, pool *gjs.Pool) {
 	c.Phase("stdlib")
 }
 
+// importFacts classifies a pair for the coverage counters: some signature uses
+// an import; the pair is in the unspecified case; the original file keeps every
+// one of its declarations (its only changes are replaced signatures / renames)
+// and nevertheless loses an import.
+func importFacts(r *recT) (sigUse, open, lost bool) {
+	for _, s := range []*sideT{&r.O, &r.V} {
+		for i := range s.Decls {
+			if isFn(&s.Decls[i]) && s.Decls[i].Su != "" {
+				sigUse = true
+			}
+		}
+	}
+	names := 0
+	for i := range r.O.Decls {
+		d := &r.O.Decls[i]
+		if isFn(d) {
+			names++
+		}
+		for _, sp := range d.Specs {
+			names += len(sp.Ns)
+		}
+	}
+	syms, imps := 0, 0
+	for _, it := range r.M {
+		if it.Ord/1000 != 1 {
+			continue
+		}
+		switch it.K {
+		case "import":
+			imps++
+		case "directive":
+		default:
+			syms++
+		}
+	}
+	return sigUse, r.Open, syms == names && imps < len(importsOf(&r.O))
+}
+
 func decideAll(c *core.Ctx, recs []*recT) {
 	seen := map[string]bool{}
 	var uniq []*recT
@@ -569,6 +644,16 @@ func decideAll(c *core.Ctx, recs []*recT) {
 		uniq = append(uniq, r)
 		if nontrivial(r) {
 			c.Distinct(k)
+		}
+		sigUse, open, lost := importFacts(r)
+		if sigUse {
+			c.Add("pairs_with_signature_import_use", 1)
+		}
+		if open {
+			c.Add("pairs_unspecified_signature_import", 1)
+		}
+		if lost {
+			c.Add("pairs_import_lost_without_any_removal", 1)
 		}
 	}
 	c.Set("evaluations", len(uniq))
